@@ -410,4 +410,53 @@ def fastaVerdict (tag : Seq) (gen : Bool) (text : Seq) (out : List (Seq × Seq))
     else if out.map (·.1) != want.map (·.1) then "bad:accession"
     else "bad:sequence"
 
+
+/-! ## `Fasta::digest` (per-record digestion with the decoy flag) -/
+
+/-- one output of `Fasta::digest`: accession, the digest, `decoy` -/
+structure FItem where
+  acc : Seq
+  d : Digest
+  decoy : Bool
+deriving Repr, DecidableEq
+
+/-- the `filter_map` closure of `Fasta::digest`: digests of a decoy-tagged protein are flagged decoy
+    when decoys are not generated, and dropped when they are -/
+def fastaDigestOf (tag : Seq) (gen : Bool) (par : Params) (recs : List (Seq × Seq)) : List FItem :=
+  recs.flatMap fun r =>
+    (digest par r.2).filterMap fun d =>
+      if containsSub r.1 tag then (if !gen then some ⟨r.1, d, true⟩ else none) else some ⟨r.1, d, false⟩
+
+/-- `Fasta::parse(text, tag, gen).digest(&params)`; `none` = panic in `parse`. The rayon
+    `par_iter().flat_map_iter().collect()` is modelled by its contract: every record is digested
+    once, results concatenated in record order, whatever the pool size. -/
+def fastaDigest (tag : Seq) (gen : Bool) (par : Params) (text : Seq) : Option (List FItem) :=
+  (parse tag gen text).map (fastaDigestOf tag gen par)
+
+/-- spec side: the records of the independent FASTA spec, each digested, flagged by the decoy rule -/
+def fdWant (tag : Seq) (gen : Bool) (par : Params) (recs : List (Seq × Seq)) : List FItem :=
+  recs.flatMap fun r => (digest par r.2).map fun d => ⟨r.1, d, containsSub r.1 tag && !gen⟩
+
+def countItem (l : List FItem) (acc w : Seq) : Nat := (l.filter fun it => it.acc == acc && it.d.seq == w).length
+
+/-- is `a` a permutation of `b` (multiset equality by counting) -/
+def permB (a b : List FItem) : Bool :=
+  a.length == b.length && a.all fun x => (a.filter (· == x)).length == (b.filter (· == x)).length
+
+/-- verdict on the implementation's per-pool outputs (`pools`: one list per rayon pool size) -/
+def fdVerdict (tag : Seq) (gen : Bool) (par : Params) (text : Seq) (pools : List (List FItem)) : String :=
+  match specFasta tag gen ((splitNL text).map trim) with
+  | none => "na"
+  | some recs =>
+    let want := fdWant tag gen par recs
+    match pools with
+    | [] => "ok"
+    | p0 :: ps =>
+      if ps.any (fun p => !permB p p0) then "bad:thread_dependent"
+      else if p0.any (fun it => it.decoy != (containsSub it.acc tag && !gen)) then "bad:decoy_flag"
+      else if want.any (fun it => decide (countItem p0 it.acc it.d.seq < countItem want it.acc it.d.seq))
+        then "bad:record_not_digested"
+      else if !permB p0 want then "bad:digest_mismatch"
+      else "ok"
+
 end Sage.C05
